@@ -482,6 +482,13 @@ class SolverFaultsEngine(EngineBase):
                  'e.g. %s; planet: %s' % (i, label, exit_path, bad, worst[0], worst[1], reply.get('restore_example'), ctx['stack']),
                  exit=reply['kind'], exception=reply.get('exception', ''), message_prefix=_msg_class(reply.get('message', ''))[:40],
                  nondimensionalize=bool(o.get('nondimensionalize', True)), cause=cause)
+        if reply.get('guard_overwritten'):
+            g = reply['guard_overwritten']
+            viol('inputs-restored', 'wrote-outside-the-array',
+                 'step %d %s: the call (%s) wrote outside the caller\'s arrays: %s (guard zones of 8 sentinel elements on either side of '
+                 'every input array); planet: %s' % (i, label, exit_path, '; '.join('%s, %s element %d now %s' % tuple(x) for x in g[:3]), ctx['stack']),
+                 exit=reply['kind'])
+        bump('probe:guard_zones_checked')
         # 1./3. protocol
         if reply['kind'] == 'returned':
             if reply.get('type') != 'RadialSolverSolution':
